@@ -2,7 +2,7 @@
     ([fx = true]) never panics, and it agrees with the grammar as it is on every input on
     which that one does not panic. *)
 From Coq Require Import NArith ZArith List Bool Lia.
-From Snel Require Import Base.Bytes Model.Tokenizer Model.Parser Model.Command
+From Snel Require Import Base.Bytes Gen.Params Model.Tokenizer Model.Parser Model.Command
   Proofs.ParserBasics Proofs.FuelProofs.
 Import ListNotations.
 Open Scope N_scope.
@@ -250,6 +250,15 @@ Theorem fixed_never_panics : forall s k, parse_command true s <> PPanic k.
 Proof.
   intros s k H. destruct (panic_only_in_query true s k H) as (q & Hq). eapply parse_query_np; eauto.
 Qed.
+
+(** The parser in the mode the Rust text is in: the translator reads fallible actions in query.rs,
+    so this is the repaired grammar.  (If the text goes back to [unwrap()] the flag flips and this
+    proof no longer checks.) *)
+Lemma cur_mode_fallible : query_numeric_fallible = true.
+Proof. reflexivity. Qed.
+
+Theorem parse_never_panics : forall s k, parse_command_cur s <> PPanic k.
+Proof. intros s k. unfold parse_command_cur. rewrite cur_mode_fallible. apply fixed_never_panics. Qed.
 
 (** * Part B: the repaired grammar agrees with the present one wherever that one does not panic *)
 
